@@ -77,6 +77,8 @@ type caseOracle struct {
 	prev  snapshot
 	nReq  int
 	nResp int
+	// flow of media per session as last probed, valid while every request since was refused
+	flowSeen map[int]string
 	// onViol is called at once for every violation: should the server die later in the case, the
 	// parent process has it already
 	onViol func(corr.Violation)
@@ -138,6 +140,9 @@ func (o *caseOracle) afterReq(r Req, res ReqResult, linked int, post snapshot, i
 			fmt.Sprintf("%s sent with CSeq %s, response carries CSeq %s", r.Method, r.CSeq, res.CSeq))
 	}
 	success := res.Status >= 200 && res.Status < 300
+	if res.Status < 400 || res.Closed {
+		o.flowSeen = nil // an accepted request (or a lost connection) may change what flows
+	}
 	o.dist[fmt.Sprintf("resp:%s:%dxx", r.Method, res.Status/100)]++
 	if res.Closed {
 		o.dist["conn-closed-after-error"]++
@@ -278,6 +283,7 @@ addressed:
 // with its request's CSeq; a shorter answer is only acceptable when the server closed the connection.
 func (o *caseOracle) afterBatch(b BatchResult, post snapshot, in *instance) {
 	defer func() { o.prev = post }()
+	o.flowSeen = nil
 	if in.hang != "" {
 		o.violate("no sequence hangs the server", "hang", in.hang)
 		in.hang = ""
@@ -315,6 +321,7 @@ func (o *caseOracle) afterBatch(b BatchResult, post snapshot, in *instance) {
 
 // afterClose checks a client-side close of connection c.
 func (o *caseOracle) afterClose(c int, post snapshot, in *instance) {
+	o.flowSeen = nil
 	pre := o.prev
 	defer func() { o.prev = post }()
 	if in.hang != "" {
@@ -340,6 +347,36 @@ func (o *caseOracle) afterClose(c int, post snapshot, in *instance) {
 				o.dist["session-ended-with-its-last-conn"]++
 			}
 		}
+	}
+	o.common(post)
+}
+
+// afterMedia: a request that was answered with an error status leaves the session working: what
+// flowed before it still flows after it.
+func (o *caseOracle) afterMedia(k int, flow string) {
+	if prev, ok := o.flowSeen[k]; ok && prev != flow {
+		o.violate("a request answered with an error status leaves the session unchanged (media keeps flowing)",
+			"sess-refused-broke-media", fmt.Sprintf("session %d: media probe said `%s` before and `%s` after requests that were all answered with an error status", k, prev, flow))
+	}
+	if o.flowSeen == nil {
+		o.flowSeen = map[int]string{}
+	}
+	o.flowSeen[k] = flow
+}
+
+// afterSilence: all peers were silent for longer than every timeout plus a check period.
+func (o *caseOracle) afterSilence(post snapshot, in *instance) {
+	defer func() { o.prev = post }()
+	if in.hang != "" {
+		o.violate("no sequence hangs the server", "hang", in.hang)
+		in.hang = ""
+	}
+	if len(post.conns) > 0 || len(post.sess) > 0 {
+		o.violate("a session whose peer goes silent is closed within the timeout plus one check period",
+			"sess-silent-not-closed", fmt.Sprintf("after IdleTimeout %v / ReadTimeout %v + one check period of silence on every connection: still there: %s",
+				in.srv.IdleTimeout, in.srv.ReadTimeout, post.String()))
+	} else {
+		o.dist["silence:everything-closed"]++
 	}
 	o.common(post)
 }
